@@ -38,6 +38,11 @@ func (r *Reader) readInfe(b *box) (err error) {
 		boxType := boxTypeFromBuf(buf[i+4 : i+8])
 		flags := flags(bmffEndian.Uint32(buf[i+8 : i+12]))
 
+		if size < 1 {
+			// an entry of size 0 would never advance
+			break
+		}
+
 		if boxType != typeInfe {
 			i += size
 			continue
